@@ -451,7 +451,7 @@ def identify(fatoms, residues):
                 return 'backbone bead %d has no unique input residue within 2 A (%s)' % (i + 1, best)
             k = best[0][1]
             r = residues[k]
-            if k in used or r['chain'] != a['chain'] or r['resname'] != a['resname']:
+            if k in used or r['chain'] != a['chain']:
                 return 'backbone bead %d (%s %s) maps to input residue %s %s %d%s%s' % (
                     i + 1, a['chain'], a['resname'], r['chain'], r['resname'], r['old'], r['icode'], ' again' if k in used else '')
             used[k] = i
